@@ -106,10 +106,13 @@ void bn_rec_win(uint8_t *win, size_t *len, const bn_t k, size_t w) {
 	memset(win, 0, *len);
 
 	j = 0;
-	for (i = 0; i < l - w; i += w) {
-		win[j++] = get_bits(k, i, i + w - 1);
+	if (l > 0) {
+		/* Compare as signed integers, the scalar can be shorter than w bits. */
+		for (i = 0; i < l - (int)w; i += w) {
+			win[j++] = get_bits(k, i, i + w - 1);
+		}
+		win[j++] = get_bits(k, i, l - 1);
 	}
-	win[j++] = get_bits(k, i, bn_bits(k) - 1);
 	*len = j;
 }
 
